@@ -322,7 +322,16 @@ func scenario(x *explore.X, product int) {
 
 	opts := world.Options{}
 	if c.auth {
-		opts.BasicAuth = user + ":" + pass
+		// (round 9 rule) the credentials reach the configuration through ParseUserinfo directly, or the way an operator's
+		// do: as the value of --basic-auth through the flag plumbing of package bind
+		if product == 0 && x.Choose("basic-auth-given-as-command-line-flag", 2) == 1 {
+			opts.Flags = []string{"--basic-auth", user + ":" + pass}
+		} else {
+			opts.BasicAuth = user + ":" + pass
+		}
+	}
+	if c.localhost && product == 0 && x.Choose("localhost-mode-given-as-command-line-flag", 2) == 1 {
+		opts.Flags = append(opts.Flags, "--proxy-localhost", "deny")
 	}
 	if c.deny {
 		opts.DenyDomains = denyList
